@@ -230,6 +230,11 @@ pub struct Sim {
     /// deterministic function of the case's order bytes and the instant. An empty order vector
     /// means no spurious polls. VCHECK_NO_SPURIOUS=1 switches it off for diagnosis.
     pub spurious_polls: bool,
+    /// At the start of every settle, tasks the library spawned on the runtime (woken by timers
+    /// that have just fired, or by what the instant's operations did) run to quiescence BEFORE
+    /// any woken caller is polled; by default a woken caller is polled as soon as it is seen.
+    /// Both orders are legitimate schedules of a real runtime.
+    pub spawned_first: bool,
     settles: u64,
 }
 
@@ -248,6 +253,7 @@ impl Sim {
             hold_resolved_ms: None,
             fresh_wakers: std::env::var_os("VCHECK_SAME_WAKER").is_none(),
             spurious_polls: std::env::var_os("VCHECK_NO_SPURIOUS").is_none(),
+            spawned_first: false,
             settles: 0,
         }
     }
@@ -443,6 +449,11 @@ impl Sim {
         let mut guard = 0u32;
         let log_at_start = self.log.len();
         self.settles += 1;
+        if self.spawned_first {
+            for _ in 0..QUIET_YIELDS {
+                tokio::task::yield_now().await;
+            }
+        }
         let mut spurious_left = 1u32;
         loop {
             guard += 1;
